@@ -24,7 +24,9 @@
 // Unit Live (live_test.go): StartBatching against a fake InfluxDB; every observed live query
 // must be exactly the query BatchQueries returns for the same tick. Unit LiveStall: the same
 // with one answer of the fake InfluxDB held back for seconds; the tick of every later query
-// is bounded from below by the instant an earlier answer was handed back.
+// is bounded from below by the instant an earlier answer was handed back. Unit LiveCron: a
+// .cron() schedule with a seconds field run live; every live tick is a time of the schedule,
+// exactly, and the historical list of the whole live span holds the live queries.
 package c16
 
 import (
